@@ -14,7 +14,8 @@ Inductive cell :=
 | CNum (isfloat : bool) (twice : Z)      (* the finite number twice/2; 1 and 1.0 differ in isfloat only *)
 | CNaN (id : N)                          (* a NaN object; id = object identity *)
 | CStr (s : string)
-| CDate (us : Z).
+| CDate (us : Z)
+| CInf (neg : bool).                     (* float('inf') / float('-inf') *)
 
 (* python == on cells *)
 Definition py_eq (a b : cell) : bool :=
@@ -23,6 +24,7 @@ Definition py_eq (a b : cell) : bool :=
   | CNum _ x, CNum _ y => Z.eqb x y
   | CStr s, CStr t => String.eqb s t
   | CDate x, CDate y => Z.eqb x y
+  | CInf a, CInf b => Bool.eqb a b
   | _, _ => false
   end.
 (* python `is` as far as it is observable: same constructor, same payload, same NaN object *)
@@ -33,11 +35,13 @@ Definition py_is (a b : cell) : bool :=
   | CNaN i, CNaN j => N.eqb i j
   | CStr s, CStr t => String.eqb s t
   | CDate x, CDate y => Z.eqb x y
+  | CInf a, CInf b => Bool.eqb a b
   | _, _ => false
   end.
 (* CPython's  x in l  *)
 Definition py_in (x : cell) (l : list cell) : bool := existsb (fun y => py_is x y || py_eq x y) l.
-Definition is_nan (c : cell) : bool := match c with CNaN _ => true | _ => false end.
+(* pyg_base is_nan: NaN or +-inf *)
+Definition is_nan (c : cell) : bool := match c with CNaN _ | CInf _ => true | _ => false end.
 Definition is_none (c : cell) : bool := match c with CNone => true | _ => false end.
 
 (* ------------------------------------------------------------------ errors *)
@@ -372,7 +376,7 @@ Definition r_concat (ts : list rtable) : res rtable :=
 Definition r_of_record (r : record) : res rtable := Ok (match r with [] => r_empty | _ => mkR (keys r) [r] end).
 
 (* ================================================================== histories *)
-Inductive addarg := AddNone | AddZero | AddReg (r : nat) | AddRec (rc : record).
+Inductive addarg := AddNone | AddZero | AddReg (r : nat) | AddRec (rc : record) | AddRecs (rs : list record).   (* d + [records] *)
 Inductive op :=
 | ONewRecords (dst : nat) (rs : list record)
 | ONewCols (dst : nat) (kvs : list (colname * cval))
@@ -494,6 +498,7 @@ Definition step (s : gstate T) (o : op) : gstate T * out :=
       | AddNone | AddZero => alias s dst r
       | AddReg r2 => fresh s dst (t_concat O [rd s r; rd s r2])
       | AddRec rc => fresh s dst (t_of_record O (dict_of rc) >>= fun t2 => t_concat O [rd s r; t2])
+      | AddRecs rs => fresh s dst (t_new_records O (map (@dict_of cell) rs) >>= fun t2 => t_concat O [rd s r; t2])
       end
   | OCopy dst r => fresh s dst (Ok (rd s r))
   | ORange dst r a b st =>          (* range(a, b, 0) raises ValueError before the table is touched *)
